@@ -90,9 +90,9 @@ def conn_view(toks):
             c = int(x.split()[1])
             if c <= cur:
                 sel = c
-        elif x.startswith("R "):
+        elif x.startswith(("R ", "RX ")):
             reqs.append((int(x.split()[1], 16), cur))
-        elif x.startswith(("P ", "PS ", "PG ")):
+        elif x.startswith(("P ", "PS ", "PG ", "PL ")):
             emitted[sel].append(int(x.split()[1], 16))
         elif x.startswith("B "):
             cut[sel] = True
@@ -154,7 +154,7 @@ def multi_schedule(r, adversarial=False):
     return toks
 
 
-ARITY = {"BB": 4, "R": 1, "G": 1, "W": 0, "WE": 0, "D": 1, "T": 1, "CA": 0, "CF": 0, "SEL": 1, "P": 1, "PS": 2, "PG": 3, "PT": 2, "B": 1}
+ARITY = {"BB": 4, "RX": 1, "PL": 2, "R": 1, "G": 1, "W": 0, "WE": 0, "D": 1, "T": 1, "CA": 0, "CF": 0, "SEL": 1, "P": 1, "PS": 2, "PG": 3, "PT": 2, "B": 1}
 
 
 def regress_schedules(pid):
@@ -181,6 +181,10 @@ def judge_safety(chk, pid, case, toks, im):
         chk.violation("the client run did not complete: " + short(im, 200), dict(case=case, impl=short(im)))
         return False, None
     outs, reader = p
+    if " WIRE bad" in im:
+        chk.violation("the octets the peer received are not a sequence of whole request frames (something other than the requests that were sent is on the wire)",
+                      dict(case=case, impl=short(im)))
+        return False, p
     # which connection each request was sent on and each answer was emitted on (events CA / SEL; one connection otherwise)
     reqs, emitted, _ = conn_view(toks)
     if len(outs) != len(reqs):
@@ -302,6 +306,18 @@ def check_C11(chk, tier, seed):
             hops = [a, b2]
             toks = [f"R {hx(hops[0])}", "W", f"R {hx(hops[1])}", "W", f"P {hx(hops[order[0]])}", f"P {hx(hops[order[1]])}"]
             cases.append((line(toks), toks, True))
+    # answers of different lengths on one connection (long before short, short before long), and a request the encoder
+    # refuses (nothing of it may reach the wire) between ordinary ones
+    for k, sizes in enumerate([(300, 0), (0, 300), (5000, 1, 0), (17000, 3), (1, 70000, 2), (40, 39, 38, 37)]):
+        hops = [0x60 + j for j in range(len(sizes))]
+        toks = []
+        for hp in hops:
+            toks += [f"R {hx(hp)}", "W"]
+        for hp, n in zip(hops, sizes):
+            toks.append(f"PL {hx(hp)} {hx(n)}")
+        cases.append((line(toks), toks, True))
+        toks2 = [f"R {hx(hops[0])}", "W", f"RX {hx(0x7f)}", f"R {hx(hops[1])}", "W", f"PL {hx(hops[0])} {hx(sizes[0])}", f"PL {hx(hops[1])} {hx(sizes[1])}"]
+        cases.append((line(toks2), toks2, "multi"))
     # adversarial peers (safety only): unsolicited, duplicated, wrong-id answers
     for k in range(300 if tier == "quick" else 20000):
         r = rng.fork(f"a{k}")
@@ -427,6 +443,8 @@ def check_C12(chk, tier, seed):
                     toks.append(f"P {hx(ids[i])}")
             if r.chance(1, 5):
                 toks.append(f"B {r.choice(kinds)}")
+            if r.chance(1, 12):
+                toks += ["W", f"RX {hx(r.choice([0x70, 0x71]))}"]         # a request the encoder refuses, in between
             if r.chance(1, 10):
                 toks.append("WE")                                         # send_message fails in its write (nothing happens if it is not blocked)
             toks.append("W")
@@ -438,6 +456,8 @@ def check_C12(chk, tier, seed):
             if c < 3:
                 if r.chance(1, 4):
                     toks.append(f"PG {hx(ids[r.below(i + 1)])} {hx(r.range(1, ANSWER_LEN - 1))} {hx(r.choice([1, 1000, 1500, 61000]))}")
+                elif r.chance(1, 4):
+                    toks.append(f"PL {hx(ids[r.below(i + 1)])} {hx(r.choice([0, 1, 100, 5000]))}")
                 else:
                     toks.append(f"P {hx(ids[r.below(i + 1)])}")
             elif c == 3:
@@ -512,11 +532,11 @@ def check_C12(chk, tier, seed):
                 chk.violation("the reader did not stop after the peer closed / reset / sent an undecodable message", dict(case=c, impl=short(im)))
             else:
                 # while the reader is alive, a pending future must be one whose answer was never emitted after its registration
-                reqs = [(j, int(x.split()[1], 16)) for j, x in enumerate(toks) if x.startswith("R ")]
+                reqs = [(j, int(x.split()[1], 16)) for j, x in enumerate(toks) if x.startswith(("R ", "RX "))]
                 for (idx, (pos, h)), o in zip(enumerate(reqs), outs):
                     if o == "PENDING":
                         later_same = any(x.startswith("R ") and int(x.split()[1], 16) == h for x in toks[pos + 1:])
-                        answered = any(x.startswith(("P ", "PS ", "PG ")) and int(x.split()[1], 16) == h for x in toks[pos + 1:])
+                        answered = any(x.startswith(("P ", "PS ", "PG ", "PL ")) and int(x.split()[1], 16) == h for x in toks[pos + 1:])
                         if later_same or answered:
                             ok = False
                             chk.violation("a response future is pending although its answer was sent or its waiter was superseded", dict(case=c, impl=short(im)))
